@@ -23,6 +23,21 @@ CHECKS = {
     },
 }
 
+CHECKS["C04"] = {
+    "level": "other",
+    "text": _OTHER + ". C04: single bonding primitive, dominating compatibility test on the bonded pair, bond-order provenance, index shift, consumption of both descriptors, index spaces at the three attach sites, lockstep list bookkeeping.",
+    "design_ref": "DESIGN.md §2 C04",
+    "note": _NOTE,
+    "technique": "static analysis: who-may-call over the resolved call graph, CFG must-pass / post-domination, provenance (reaching definitions) equality of operands",
+}
+CHECKS["C15"] = {
+    "level": "other",
+    "text": _OTHER + ". C15: ~53 rejection roles each decided as 'role predicate implies the function raises' by complete search over canonical guard atoms (liveness included), unknown distribution names cannot fall through, every parser while-loop advances on every path, generable is the conjunction over children.",
+    "design_ref": "DESIGN.md §2 C15, Appendix A",
+    "note": _NOTE + "; deep scanner states (site-mode roles) trust their outer path conditions as context",
+    "technique": "static analysis: path conditions of raise statements from the CFG, propositional/threshold decision of guard formulas, string-cursor lower bounds for loop progress",
+}
+
 NOT_APPLICABLE = {}
 for _i in range(1, 21):
     _p = f"C{_i:02d}"
